@@ -61,3 +61,54 @@ def py_expected(name, form, N, A, B, K, M=None):
 def py_ctor(N, V, trunc=False):
   if not trunc and not (-2**(N - 1) <= V <= 2**N - 1): return ('exc', 'ValueError')
   return ('val', V % 2**N, N)
+
+
+# ---------------------------------------------------------------------------
+# C05: slices and helpers, plain-Python form used by replay scripts
+# ---------------------------------------------------------------------------
+def py_getitem(N, X, idx):
+  """idx: int | (lo, hi, step) with None for absent bounds"""
+  if isinstance(idx, tuple):
+    lo, hi, st = idx
+    if st is not None: return ('exc', 'IndexError')
+    lo = 0 if lo is None else lo
+    hi = N if hi is None else hi
+    if not (0 <= lo < hi <= N): return ('exc', 'IndexError')
+    return ('val', (X >> lo) % 2**(hi - lo), hi - lo)
+  if not (0 <= idx < N): return ('exc', 'IndexError')
+  return ('val', (X >> idx) & 1, 1)
+
+
+def py_setitem(N, X, idx, v):
+  """v: int | ('bits', m, value); returns set of acceptable outcomes [('val', newX, N) | ('exc', name)]"""
+  if isinstance(idx, tuple):
+    lo, hi, st = idx
+    bad_idx = st is not None
+    lo = 0 if lo is None else lo
+    hi = N if hi is None else hi
+    bad_idx = bad_idx or not (0 <= lo < hi <= N)
+  else:
+    lo, hi = idx, idx + 1
+    bad_idx = not (0 <= idx < N)
+  w = hi - lo
+  outs = []
+  if bad_idx: outs.append(('exc', 'IndexError'))
+  if isinstance(v, tuple):
+    _, m, val = v
+    if bad_idx or m > w: outs.append(('exc', 'ValueError'))
+    if not bad_idx and m < w: outs.append(('exc', 'ValueError'))       # narrower: refusing is fine
+    if not bad_idx and m <= w:
+      if m == w or True:
+        outs.append(('val', (X & ~(((1 << w) - 1) << lo)) | (val << lo), N))
+    if not bad_idx and m > w: pass
+  else:
+    if bad_idx: outs.append(('exc', 'ValueError'))
+    elif not (-2**(w - 1) <= v <= 2**w - 1): outs.append(('exc', 'ValueError'))
+    else: outs.append(('val', (X & ~(((1 << w) - 1) << lo)) | ((v % 2**w) << lo), N))
+  return outs
+
+
+def py_clog2(N):
+  k = 0
+  while (1 << k) < N: k += 1
+  return k
